@@ -23,7 +23,7 @@ deriving DecidableEq, Repr
 
 inductive VarDef
   | lit (parts : List Part)          -- scalar, templated
-  | sh (parts : List Part)           -- `sh:` command, templated, then run
+  | sh (parts : List Part) (dirOverride : Option Str)   -- `sh:` command, templated, then run (in `Var.Dir` if set)
   | refv (n : Name)                  -- `ref: .NAME`
 deriving DecidableEq, Repr
 
@@ -38,11 +38,35 @@ def render (e : Env) : List Part → Str
   | .text s :: ps => s ++ render e ps
   | .ref n :: ps => get e n ++ render e ps
 
+/-! ### environment of commands -/
+
+/-- `new.Env`: global env, then task dotenv, then task env (later overrides earlier);
+`GetFromVars`: entries already set in the process environment are skipped unless the
+env-precedence experiment is on; the command sees `os.Environ() ++ appended`, last wins. -/
+def taskEnv (globalEnv dotenv taskEnvVars : Env) : Env := taskEnvVars ++ dotenv ++ globalEnv
+
+def dedupKeys : Env → List Name → Env
+  | [], _ => []
+  | (k, v) :: r, seen => if seen.contains k then dedupKeys r seen else (k, v) :: dedupKeys r (k :: seen)
+
+def commandEnv (osEnv : Env) (merged : Env) (precedence : Bool) : Env :=
+  let appended := (dedupKeys merged []).filter (fun kv => precedence || (osEnv.lookup kv.1).isNone)
+  appended ++ osEnv          -- newest-first: appended entries win over the process environment
+
 /-- the dynamic-variable cache, keyed by directory and command text -/
 abbrev Cache := List ((Str × Str) × Str)
 
 /-- `shell cmd dir env`: what the command prints -/
 abbrev Shell := Str → Str → Env → Str
+
+/-- what surrounds the resolution: the shell and the process environment -/
+structure World where
+  shell : Shell
+  osEnv : Env := []
+
+/-- the environment handed to an `sh:` command (`env.GetFromVars(result)`): the process
+environment plus the resolved variables it does not already set -/
+def shEnv (w : World) (e : Env) : Env := commandEnv w.osEnv e false
 
 /-- `HandleDynamicVar`: empty command ⇒ empty; cached ⇒ cached value; else run and cache -/
 def dynamic (shell : Shell) (c : Cache) (cmd dir : Str) (e : Env) : Str × Cache :=
@@ -52,17 +76,17 @@ def dynamic (shell : Shell) (c : Cache) (cmd dir : Str) (e : Env) : Str × Cache
   | none => let v := shell cmd dir e; (v, ((dir, cmd), v) :: c)
 
 /-- evaluate one definition over the variables resolved so far (the closure `getRangeFunc`) -/
-def evalDef (shell : Shell) (dir : Str) (e : Env) (c : Cache) : VarDef → Str × Cache
+def evalDef (w : World) (dir : Str) (e : Env) (c : Cache) : VarDef → Str × Cache
   | .lit ps => (render e ps, c)
   | .refv n => (get e n, c)
-  | .sh ps => dynamic shell c (render e ps) dir e
+  | .sh ps ov => dynamic w.shell c (render e ps) (ov.getD dir) (shEnv w e)
 
 /-- a block of definitions evaluated in order in one directory -/
-def evalBlock (shell : Shell) (dir : Str) : List (Name × VarDef) → Env → Cache → Env × Cache
+def evalBlock (w : World) (dir : Str) : List (Name × VarDef) → Env → Cache → Env × Cache
   | [], e, c => (e, c)
   | (n, d) :: rest, e, c =>
-    let (v, c') := evalDef shell dir e c d
-    evalBlock shell dir rest (set e n v) c'
+    let (v, c') := evalDef w dir e c d
+    evalBlock w dir rest (set e n v) c'
 
 /-- the sites at which a variable can be defined, in the order `getVariables` processes them -/
 inductive Site
@@ -93,21 +117,21 @@ structure St where
   cache : Cache
 
 /-- one layer; before it, the task directory is resolved if `dirAfter` layers have been processed -/
-def stepLayer (shell : Shell) (cx : Ctx) (i : Nat) (s : St) (l : Layer) : St :=
+def stepLayer (w : World) (cx : Ctx) (i : Nat) (s : St) (l : Layer) : St :=
   let td' : Option Str := match s.td with
     | some d => some d
     | none => if i ≥ cx.dirAfter then some (joinDir cx.rootDir (render s.env cx.taskDirTpl)) else none
   let dir := if l.site.inTaskDir then td'.getD cx.rootDir else cx.rootDir
-  let r := evalBlock shell dir l.defs s.env s.cache
+  let r := evalBlock w dir l.defs s.env s.cache
   { td := td', env := r.1, cache := r.2 }
 
-def runLayers (shell : Shell) (cx : Ctx) : List Layer → Nat → St → St
+def runLayers (w : World) (cx : Ctx) : List Layer → Nat → St → St
   | [], _, s => s
-  | l :: ls, i, s => runLayers shell cx ls (i+1) (stepLayer shell cx i s l)
+  | l :: ls, i, s => runLayers w cx ls (i+1) (stepLayer w cx i s l)
 
 /-- `getVariables`: start from the process environment and the special variables -/
-def getVariables (shell : Shell) (cx : Ctx) (base : Env) (layers : List Layer) (c : Cache) : St :=
-  runLayers shell cx layers 0 { td := none, env := base, cache := c }
+def getVariables (w : World) (cx : Ctx) (base : Env) (layers : List Layer) (c : Cache) : St :=
+  runLayers w cx layers 0 { td := none, env := base, cache := c }
 
 /-- the order in which the documentation says the sites are consulted, lowest priority
 first (`Props.C10` proves the generated order of the loops in `getVariables` equals it) -/
@@ -117,21 +141,6 @@ def docOrder : List Site :=
 /-- definitions per site → layers in documented order; the task directory is resolved
 after the global and include-statement layers (3 layers) -/
 def layersOf (defs : Site → List (Name × VarDef)) : List Layer := docOrder.map (fun s => ⟨s, defs s⟩)
-
-/-! ### environment of commands -/
-
-/-- `new.Env`: global env, then task dotenv, then task env (later overrides earlier);
-`GetFromVars`: entries already set in the process environment are skipped unless the
-env-precedence experiment is on; the command sees `os.Environ() ++ appended`, last wins. -/
-def taskEnv (globalEnv dotenv taskEnvVars : Env) : Env := taskEnvVars ++ dotenv ++ globalEnv
-
-def dedupKeys : Env → List Name → Env
-  | [], _ => []
-  | (k, v) :: r, seen => if seen.contains k then dedupKeys r seen else (k, v) :: dedupKeys r (k :: seen)
-
-def commandEnv (osEnv : Env) (merged : Env) (precedence : Bool) : Env :=
-  let appended := (dedupKeys merged []).filter (fun kv => precedence || (osEnv.lookup kv.1).isNone)
-  appended ++ osEnv          -- newest-first: appended entries win over the process environment
 
 /-! ### loops -/
 
